@@ -10,6 +10,9 @@
                               (src/sql/executor.rs, `skipped` / `returned`)
    * the sort itself          DynamicExecutor::Sort = Vec::sort_by (stable) = KnnOrder.isort;
                               DynamicExecutor::TopK = KnnOrder.topk with heap size limit+offset,
+                              (the code computes limit.saturating_add(offset), commit 95facdb; the
+                              exact sum used here gives the same rows on every input shorter than
+                              2^64 - 1: Proof/SortLimit.v topk_size_irrelevant_l),
                               then drain(offset .. offset+limit)
    * [model_query]            how `Database::query` runs the fragment of Model/SortQuery.v on one
                               table: which operator the keys are resolved in (planner/convert.rs
